@@ -202,7 +202,9 @@ def check_c16(sc, an):
         m = an.emits.get(root)
         if m is None:
             continue
-        if m.status is None and not an.quiescent:
+        if m.status is None:
+            # the emit never completed (blocked on a full zip input ...): nothing was
+            # reported to the caller either way; pending emits are C03's business
             continue
         if m.status != 'exc' or not m.exc or m.exc[0] != 'injected' or (m.exc[1], m.exc[2]) != (a.node, a.call):
             # several failures within one emit: any of them may be the one that surfaces
@@ -215,8 +217,10 @@ def check_c16(sc, an):
                                   ('nothing (emit never completed)' if m.status is None else repr(m.exc))),
                                node_op=an.spec[a.node]['op'], kind=an.spec[a.node].get('kind')))
             return V
-    # 2. state intact: the node contracts with the failing element withdrawn at the failing node
-    for v in an.check_sync_nodes() + an.check_edges():
+    # 2. state intact: the nodes that run a user function, with the failing element
+    #    withdrawn at the node whose function raised.  (What a stateful node *upstream*
+    #    of the failure does with the element is not fixed by the statement.)
+    for v in an.check_sync_nodes(only_ops=('map', 'starmap', 'filter', 'accumulate')) + an.check_sinks():
         if v.prop == 'C01':
             V.append(Violation('C16', 'C16.state_changed', v.seq, v.detail, **v.info))
             return V
